@@ -26,7 +26,7 @@ fn bit(id: u64) -> u8 {
     1u8 << id
 }
 
-fn mask(ids: &[u64]) -> u8 {
+pub fn mask(ids: &[u64]) -> u8 {
     let mut m = 0;
     let mut i = 0;
     while i < ids.len() {
